@@ -313,6 +313,10 @@ def run_history(P):
     H["arrivals"] = [{k: v for k, v in e.items() if k not in ("kind",)} for e in cl.events if e["kind"] == "produce_arrival"]
     for a in H["arrivals"]:
         a["t"] = a["t"] - H.get("t0", 0)
+    H["conn_overlaps"] = [{k: v for k, v in e.items() if k != "kind"} for e in cl.events
+                          if e["kind"] == "produce_behind_unanswered_produce"]
+    H["lost_produce_replies"] = sum(1 for e in cl.events if e["kind"] == "request" and e.get("api") == "Produce"
+                                    and "lose_reply" in str(e.get("fate")))
     H["fault_hits"] = dict(plan.hits)
     H["leader_moves"] = sum(1 for e in cl.events if e["kind"] == "leader_move")
     H["topic_ts_type"] = 1 if P["log_append_time"] else 0
